@@ -50,10 +50,13 @@ def seq_eq(a, b):
 def run_scenario(chk, sc, cfgseed, ndims):
     from amr_kitchen import PlotfileCooker
     rng = random.Random(cfgseed)
-    cfg = gamma.Config.draw(rng, ndims=ndims, payload=rng.choice(["tame", "wild"]))
+    cfg = gamma.Config.draw(rng, ndims=ndims, payload=rng.choice(["tame", "wild"]), numfmt="g6" if cfgseed % 4 == 0 else "repr")
     classes = [[rng.choice([1, 2]) for _ in range(nb)] for nb in sc["nbs"]]
     layouts = [rand_layout(rng, nb) for nb in sc["nbs"]]
     ap = gamma.make_ap("A", sc["names"], classes, layouts, ndims=ndims, time=cfg.time)
+    if cfgseed % 5 == 0:
+        # an index space that does not start at 0 (the domain boxes of the header give both corners)
+        gamma.shift_indices(ap, [[-8, -3, -16], [-4, 0, -1], [5, -2, 0]][(cfgseed // 5) % 3])
     d = os.path.join(chk.tmp_reuse(), "p")
     os.makedirs(os.path.dirname(d))
     reg = gamma.write_plotfile(d, ap, cfg)
